@@ -2,8 +2,11 @@
    Statements only; the proofs are in Proofs/PricingProofs.v and
    Proofs/DecProofs.v.  (The state-level parts of C07 -- fee 0 in super mode,
    the volume moved by accepted responses -- are stated over the handlers.) *)
-From Coq Require Import List ZArith.
-From SVC Require Import Base.Dec Model.Types Model.Pricing Proofs.DecProofs Proofs.PricingProofs.
+From Coq Require Import List ZArith Bool.
+From SVC Require Import Base.AMap Base.Res Base.Dec Model.Types Model.Pricing Model.Handlers
+  Model.EndBlock Model.Step Proofs.Inv Proofs.DecProofs Proofs.PricingProofs
+  Proofs.GapOrigin Proofs.GapC07.
+Import ListNotations.
 Open Scope Z_scope.
 
 (* the fee of a non-super request: two sdk.Dec multiplications, truncate, at least 1 *)
@@ -85,3 +88,163 @@ Theorem C07_fee_within_1 : forall p t v, schema_pricing p = true ->
   Z.max 1 (X / (PREC * PREC)) <= get_price p t v <= Z.max 1 (X / (PREC * PREC)) + 1.
 Proof. exact PricingProofs.C07_fee_within_1. Qed.
 Print Assumptions C07_fee_within_1.
+
+(* ------------------------------------------------------------------ *)
+(* State level (Proofs/GapC07.v, Proofs/GapOrigin.v).
+
+   NOTE on C07_charged_is_stored above: [exchanged_price] (the price compared with the cap and
+   summed into the consumer's debit) and [get_price] (the fee stored on the request) are the SAME
+   term in the model (Model/Pricing.v), so that theorem is true by reflexivity; in Go they are two
+   functions (GetExchangedPrice / GetPrice) and their agreement is tied by the correspondence
+   (pure price stream), not by a Coq theorem.  The state-level theorems below that equate the
+   fee charged with the fee stored rely on this modelling choice. *)
+
+(* the fee of every request issued by the new-batch handler is the formula evaluated on the
+   binding's PUBLISHED pricing text, the block time and the consumer's recorded volume with that
+   provider for that service; 0 in super mode; within the cap and within max(base price, 1) *)
+Theorem C07_request_fee_new_one : forall cfg s c r q,
+  wf_cfg cfg -> Inv cfg s -> In (height s, c) (newq s) -> height s < HEIGHT_BOUND ->
+  get r (reqs s) = None -> get r (reqs (new_one cfg s c)) = Some q ->
+  exists rc b, get c (ctxs s) = Some rc /\ rid_ctx r = c /\ In (r_prov q) (c_provs rc)
+    /\ get (c_svc rc, r_prov q) (binds s) = Some b /\ b_avail b = true
+    /\ let p := parse_pricing (b_raw b) in
+       validate_pricing p = true /\ schema_pricing p = true
+       /\ r_fee q = (if c_super rc then 0
+                     else get_price p (time s) (vol_of s (c_cons rc) (c_svc rc) (r_prov q)))
+       /\ 0 <= r_fee q <= c_cap rc /\ r_fee q <= Z.max (pr_price p) 1.
+Proof. exact GapC07.request_fee_new_one. Qed.
+Print Assumptions C07_request_fee_new_one.
+
+(* the same for a whole EndBlock: pricing text of the binding as it stood at the START of the
+   EndBlock (b; the expiry phase may slash the binding, bx, but never changes its text), block
+   time and volume at the start of the EndBlock; the context record is the one after the expiry
+   phase *)
+Theorem C07_request_fee : forall cfg s dt r q,
+  wf_cfg cfg -> Inv cfg s -> height s < HEIGHT_BOUND ->
+  get r (reqs s) = None -> get r (reqs (end_block cfg s dt)) = Some q ->
+  let sx := fold_left (expire_one cfg) (due (expq s) (height s)) s in
+  exists rc b bx, get (rid_ctx r) (ctxs sx) = Some rc
+    /\ get (c_svc rc, r_prov q) (binds s) = Some b
+    /\ get (c_svc rc, r_prov q) (binds sx) = Some bx /\ b_raw bx = b_raw b /\ b_avail bx = true
+    /\ In (r_prov q) (c_provs rc)
+    /\ let p := parse_pricing (b_raw b) in
+       validate_pricing p = true /\ schema_pricing p = true
+       /\ r_fee q = (if c_super rc then 0
+                     else get_price p (time s) (vol_of s (c_cons rc) (c_svc rc) (r_prov q)))
+       /\ 0 <= r_fee q <= c_cap rc /\ r_fee q <= Z.max (pr_price p) 1
+       /\ r_exp q = height s + c_timeout rc /\ rid_height r = height s.
+Proof. exact GapC07.request_fee_end_block. Qed.
+Print Assumptions C07_request_fee.
+
+(* over histories: EVERY request record stored in ANY reachable state carries the fee given by
+   the formula at the EndBlock (of an earlier reachable state s0, at height rid_height r) that
+   issued it, and has kept it since *)
+Theorem C07_request_fee_reach : forall cfg s r q,
+  wf_cfg cfg -> Reach cfg s -> get r (reqs s) = Some q ->
+  exists s0 rc b,
+    Reach cfg s0 /\ height s0 = rid_height r /\ height s0 < height s
+    /\ get (rid_ctx r) (ctxs (fold_left (expire_one cfg) (due (expq s0) (height s0)) s0)) = Some rc
+    /\ get (c_svc rc, r_prov q) (binds s0) = Some b
+    /\ In (r_prov q) (c_provs rc)
+    /\ let p := parse_pricing (b_raw b) in
+       validate_pricing p = true /\ schema_pricing p = true
+       /\ r_fee q = (if c_super rc then 0
+                     else get_price p (time s0) (vol_of s0 (c_cons rc) (c_svc rc) (r_prov q)))
+       /\ 0 <= r_fee q <= c_cap rc /\ r_fee q <= Z.max (pr_price p) 1
+       /\ r_exp q = rid_height r + c_timeout rc.
+Proof. exact GapC07.request_fee_reach. Qed.
+Print Assumptions C07_request_fee_reach.
+
+(* every stored request was created by the EndBlock of an earlier reachable state and has kept
+   its provider, fee and expiry height *)
+Theorem C07_request_origin : forall cfg s r q,
+  wf_cfg cfg -> Reach cfg s -> get r (reqs s) = Some q ->
+  exists s0 dt q0,
+    Reach cfg s0 /\ 0 <= dt /\ height s0 < HEIGHT_BOUND
+    /\ get r (reqs s0) = None /\ get r (reqs (end_block cfg s0 dt)) = Some q0
+    /\ (r_prov q0 = r_prov q /\ r_fee q0 = r_fee q /\ r_exp q0 = r_exp q)
+    /\ height s0 < height s.
+Proof. exact GapOrigin.request_origin. Qed.
+Print Assumptions C07_request_origin.
+
+(* super mode: a stored request of a reachable state carries no fee exactly when its context is
+   in super mode; otherwise its fee is at least 1.  (That the consumer is then charged nothing:
+   C06_batch_spec (e) / C06_end_block_outcome, charge = 0 when c_super.) *)
+Theorem C07_super_fee_zero : forall cfg s r q rc,
+  wf_cfg cfg -> Reach cfg s -> get r (reqs s) = Some q -> get (rid_ctx r) (ctxs s) = Some rc ->
+  (c_super rc = true <-> r_fee q = 0) /\ (c_super rc = false -> 1 <= r_fee q).
+Proof. exact GapC07.super_fee_zero. Qed.
+Print Assumptions C07_super_fee_zero.
+
+(* C07_volume_moves, step level.  An accepted response adds exactly one to the volume of
+   (consumer of the context, service of the context, provider of the request) -- also when the
+   output is malformed and the fee refunded -- and leaves every other volume alone *)
+Theorem C07_volume_respond : forall cfg s r who code out ov ok s' q rc,
+  handle cfg s (ORespond r who code out ov ok) = Ok s' ->
+  get r (reqs s) = Some q -> get (rid_ctx r) (ctxs s) = Some rc ->
+  who = r_prov q
+  /\ forall k, get0 k (vols s') =
+       get0 k (vols s) + (if eqb k (c_cons rc, c_svc rc, r_prov q) then 1 else 0).
+Proof. exact GapC07.volume_respond. Qed.
+Print Assumptions C07_volume_respond.
+
+(* no other message moves a volume *)
+Theorem C07_volume_frame_msg : forall cfg s o s',
+  handle cfg s o = Ok s' -> (forall dt, o <> OEndBlock dt) ->
+  (forall r w c o' v k, o <> ORespond r w c o' v k) -> vols s' = vols s.
+Proof.
+  intros cfg s o s' H Hne Hnr. apply (GapC07.volume_frame_msg cfg s o s' H Hne).
+  destruct o; try reflexivity. exfalso. eapply Hnr. reflexivity.
+Qed.
+Print Assumptions C07_volume_frame_msg.
+
+(* nor does EndBlock (expiry phase, new-batch phase, tick) *)
+Theorem C07_volume_frame_end_block : forall cfg s dt, vols (end_block cfg s dt) = vols s.
+Proof. exact GapC07.volume_frame_end_block. Qed.
+Print Assumptions C07_volume_frame_end_block.
+
+(* one step of the machine, any operation, accepted or rejected: the volume of k moves by
+   [counts_for cfg s o k] = 1 if o is a response accepted in s whose request and context name
+   the triple k, else 0 *)
+Theorem C07_volume_step : forall cfg s o k,
+  get0 k (vols (fst (step cfg s o))) = get0 k (vols s) + counts_for cfg s o k.
+Proof. exact GapC07.volume_step. Qed.
+Print Assumptions C07_volume_step.
+
+(* C07_volume_moves, history level: along ANY history the volume of a triple grows by exactly the
+   number of accepted responses for it ([responses_for] sums [counts_for] along the run); from
+   genesis the volume IS that number.  (The log events do not carry the service name, so the
+   count is taken over the operations of the history rather than over [log s].) *)
+Theorem C07_volume_run : forall cfg s ops k,
+  get0 k (vols (run cfg s ops)) = get0 k (vols s) + responses_for cfg s ops k.
+Proof. exact GapC07.volume_run. Qed.
+Print Assumptions C07_volume_run.
+
+Theorem C07_volume_counts_responses : forall cfg h0 t0 f ops cons svc prov,
+  vol_of (run cfg (init h0 t0 f) ops) cons svc prov
+  = responses_for cfg (init h0 t0 f) ops (cons, svc, prov).
+Proof. exact GapC07.volume_counts_responses. Qed.
+Print Assumptions C07_volume_counts_responses.
+
+(* every reachable state is such a run, so the statement covers every reachable state *)
+Theorem C07_reach_is_run : forall cfg s, Reach cfg s ->
+  exists h0 t0 f ops, 1 <= h0 /\ 0 <= t0 /\ wf_funding f
+    /\ ReachRun.wf_run cfg (init h0 t0 f) ops /\ s = run cfg (init h0 t0 f) ops.
+Proof. exact GapOrigin.Reach_is_run. Qed.
+Print Assumptions C07_reach_is_run.
+
+Theorem C07_volume_monotone : forall cfg s ops k,
+  get0 k (vols s) <= get0 k (vols (run cfg s ops)).
+Proof. exact GapC07.volume_monotone. Qed.
+Print Assumptions C07_volume_monotone.
+
+(* the hypotheses are satisfiable: two accepted responses (one malformed) in a concrete history *)
+Theorem C07_volume_example :
+  Reach BatchEx.BEx.cfg0 BatchEx.BEx.s_r
+  /\ vol_of BatchEx.BEx.s_r 2 5 10 = 1 /\ vol_of BatchEx.BEx.s_r 2 5 11 = 1
+  /\ vol_of BatchEx.BEx.s_r 2 5 12 = 0
+  /\ responses_for BatchEx.BEx.cfg0 BatchEx.BEx.s_init BatchEx.BEx.ops_r (2, 5, 10) = 1
+  /\ responses_for BatchEx.BEx.cfg0 BatchEx.BEx.s_init BatchEx.BEx.ops_r (2, 5, 11) = 1
+  /\ responses_for BatchEx.BEx.cfg0 BatchEx.BEx.s_init BatchEx.BEx.ops_r (2, 5, 12) = 0.
+Proof. exact GapC07.ExV.volume_ex. Qed.
+Print Assumptions C07_volume_example.
